@@ -781,7 +781,7 @@ func (e *eng) Op(f []string, line string, out *hx.Out) {
 		e.atBegin = e.leftovers()
 		e.ref.begin(e.locked)
 		emit("M:*", "ok")
-	case "insert", "insertw", "modify", "cas":
+	case "insert", "insertw", "modify", "cas", "ainsert":
 		i := 1
 		tab := atoi(f[i])
 		i++
@@ -806,6 +806,13 @@ func (e *eng) Op(f []string, line string, out *hx.Out) {
 		switch f[0] {
 		case "insert":
 			old, hadOld, err = e.tabs[tab].Insert(w, o)
+		case "ainsert":
+			// the untyped API (any_table.go)
+			var a any
+			a, hadOld, err = statedb.AnyTable{Meta: e.tabs[tab]}.Insert(w, o)
+			if hadOld {
+				old = a.(*Obj)
+			}
 		case "insertw":
 			var wch <-chan struct{}
 			old, hadOld, wch, err = e.tabs[tab].InsertWatch(w, o)
@@ -825,14 +832,14 @@ func (e *eng) Op(f []string, line string, out *hx.Out) {
 		}
 		res := e.writeS(old, hadOld, oldRev, err)
 		refKind := f[0]
-		if refKind == "insertw" {
+		if refKind == "insertw" || refKind == "ainsert" {
 			refKind = "insert"
 		}
 		if want := e.ref.modify(tab, refKind, guard, o, e.wtxn != nil); want != res {
 			bad = fmt.Sprintf(" !BAD:C03:write-result(want:%s)", strings.ReplaceAll(want, " ", "_"))
 		}
 		emit("P:C03,C09,C04", "%s", res)
-	case "delete", "cad":
+	case "delete", "cad", "adelete":
 		tab := atoi(f[1])
 		i := 2
 		guard := uint64(0)
@@ -854,6 +861,12 @@ func (e *eng) Op(f []string, line string, out *hx.Out) {
 		)
 		if f[0] == "delete" {
 			old, hadOld, err = e.tabs[tab].Delete(w, o)
+		} else if f[0] == "adelete" {
+			var a any
+			a, hadOld, err = statedb.AnyTable{Meta: e.tabs[tab]}.Delete(w, o)
+			if hadOld {
+				old = a.(*Obj)
+			}
 		} else {
 			old, hadOld, err = e.tabs[tab].CompareAndDelete(w, guard, o)
 		}
